@@ -11,21 +11,6 @@ its two ways of ending on a `LenaKeyError`, and stale `_static_context`s) leads 
 namespace Lena.C13
 open Lena Lena.Val
 
-/-- the last context of a history, `{}` for none -/
-def lastD (n : Nat) (F : List Ctx) : Ctx := F.getLastD (Val.empty n)
-
-/-- the state of a leaf element after `_set_context(x)` on a fresh object (for `MakeFilename`, `Write`, `Cache`,
-whose constructors do not set a context: no call at all for an empty `x`) -/
-def leafFinal (n : Nat) : Elem → Ctx → St
-  | .set k ks v, x => .set k ks v (SC.ofExcept (fmtUpdate n k ks v x))
-  | .store, x => .store x
-  | .ucfs, x => .ucfs x
-  | .mkf t, x => .mkf t (if nonEmpty x = true then some x else none)
-  | .write t, x => .write t (if nonEmpty x = true then nameUpdate t none x else none)
-  | .cache t, x => .cache t (if nonEmpty x = true then nameUpdate t none x else none)
-  | .data, _ => .data
-  | .src, _ => .src
-
 /-- the contexts that get past `t` -/
 def pastT (n : Nat) (t : Tree) (F : List Ctx) : List Ctx := F.filterMap (fun c => (fold n t c).toOption)
 
